@@ -54,6 +54,19 @@ def check(rec):
                     break
             if full(v.get("page"), len(want)) and sorted(map(str, got)) != sorted(map(str, want)):
                 out.append(V("listing-incomplete", f"{op} (one page covering everything) lists {len(got)} files, the index holds {len(want)} under that route", op))
+        if k == "storeCount" and not err:
+            want = sum(1 for pk, _ in st["proofs"] if pk[0].startswith(v["address"]))
+            if body["v"] != want:
+                out.append(V("store-count-wrong", f"StoreCount({v['address']}) answers {body['v']}, the proof store holds {want} records under that prover prefix", op))
+        if k == "networkSize" and not err:
+            want = sum((f["fileSize"] * f["maxProofs"]) % (1 << 64) for f in files.values()) % (1 << 64)
+            if body["v"] != want:
+                out.append(V("network-size-wrong", f"NetworkSize answers {body['v']}, the files held add up to {want}", op))
+        if k == "activeProviders" and not err:
+            provs = [p["address"] for _, p in st["providers"]]
+            want = sorted(a for a in provs if any(pk[0].startswith(a) for pk, _ in st["proofs"]))
+            if sorted(body["l"]) != want:
+                out.append(V("active-providers-wrong", f"ActiveProviders lists {len(body['l'])} providers, {len(want)} registered providers hold proof records", op))
         if k == "payInfo":
             want = dict(st["payinfo"]).get(v["address"])
             if (want is None) != err or (want is not None and body["p"] != want):
